@@ -1,9 +1,13 @@
 package checks
 
 import (
+	"net"
+	"os"
 	"time"
 
 	"p9verif/vconn"
+
+	"golang.org/x/sys/unix"
 
 	"github.com/hugelgupf/p9/linux"
 	"github.com/hugelgupf/p9/p9"
@@ -29,6 +33,49 @@ func dialPipe(srv *p9.Server, opts ...p9.ClientOpt) (*p9.Client, func(), error) 
 		case <-done:
 		case <-time.After(10 * time.Second):
 		}
+	}
+	if err != nil {
+		closeFn()
+		return nil, func() {}, err
+	}
+	return c, closeFn, nil
+}
+
+// dialSock is dialPipe over a real AF_UNIX stream socket pair (both peers then
+// receive through the vectorised recvmsg path); bufsize > 0 sets the kernel's
+// send and receive buffers of both ends, so that large frames arrive in pieces.
+func dialSock(srv *p9.Server, bufsize int, opts ...p9.ClientOpt) (*p9.Client, func(), error) {
+	fds, err := unix.Socketpair(unix.AF_UNIX, unix.SOCK_STREAM|unix.SOCK_CLOEXEC, 0)
+	if err != nil {
+		return nil, func() {}, err
+	}
+	var conns [2]net.Conn
+	for i, fd := range fds {
+		if bufsize > 0 {
+			unix.SetsockoptInt(fd, unix.SOL_SOCKET, unix.SO_SNDBUF, bufsize)
+			unix.SetsockoptInt(fd, unix.SOL_SOCKET, unix.SO_RCVBUF, bufsize)
+		}
+		f := os.NewFile(uintptr(fd), "sockpair")
+		c, err := net.FileConn(f)
+		f.Close()
+		if err != nil {
+			return nil, func() {}, err
+		}
+		conns[i] = c
+	}
+	done := make(chan struct{})
+	go func() {
+		srv.Handle(conns[1], conns[1])
+		close(done)
+	}()
+	c, err := p9.NewClient(conns[0], opts...)
+	closeFn := func() {
+		conns[0].Close()
+		select {
+		case <-done:
+		case <-time.After(10 * time.Second):
+		}
+		conns[1].Close()
 	}
 	if err != nil {
 		closeFn()
